@@ -35,6 +35,8 @@ pub struct Clause {
 
 #[derive(Debug, Clone, Default)]
 pub struct LoopContract {
+    /// for `for` loops: name of the ghost iterator wrapper (`it.index@`, `it.history@`)
+    pub binder: Option<String>,
     pub invariants: Vec<Clause>,
     pub invariants_except_break: Vec<Clause>,
     pub ensures: Vec<Clause>,
@@ -177,6 +179,7 @@ pub fn parse_contracts(src: &str) -> Result<Contracts, String> {
                         let (name, strength, expr) = split_named(r, ln)?;
                         lc.ensures.push(Clause { name, text: expr, strength, src_line: ln });
                     }
+                    "binder" => lc.binder = Some(r.to_string()),
                     "decreases" => lc.decreases = Some(r.to_string()),
                     "proof" => lc.proof_head = Some(r.to_string()),
                     other => return Err(format!("line {}: unknown loop directive `{}`", ln, other)),
